@@ -38,6 +38,14 @@ static std::vector<std::array<T1, 9>> boundary_values() {
     out.push_back({std::nextafter(mx, inf), -std::nextafter(mx, inf), std::nextafter(tie, (T1)0), -std::nextafter(tie, (T1)0), tie, -tie, std::nextafter(tie, inf), mx, std::nextafter(mx, (T1)0)});
     out.push_back({std::nextafter(mn, (T1)0), -mn, std::nextafter(mn, inf), dm / 2, std::nextafter(dm / 2, inf), -std::nextafter(dm / 2, (T1)0), -dm / 4, dm * (T1)1.5, std::nextafter(dm * (T1)1.5, (T1)0)});
   }
+  // witnesses of double rounding: values just beside a midpoint of the target type, so close that a detour through a type of
+  // intermediate precision lands exactly on the midpoint and then rounds the other way (long double -> double -> float)
+  if constexpr (std::numeric_limits<T2>::digits + 8 < std::numeric_limits<T1>::digits) {
+    const int p2 = std::numeric_limits<T2>::digits, p1 = std::numeric_limits<T1>::digits;
+    const T1 half = std::ldexp((T1)1, -p2), tiny = std::ldexp((T1)1, -(p1 - 2));
+    out.push_back({(T1)1 + half + tiny, -((T1)1 + half + tiny), (T1)1 + 3 * half - tiny, std::ldexp((T1)1 + half + tiny, 10), std::ldexp((T1)1 + 3 * half - tiny, -7), (T1)3 + 2 * half + 2 * tiny,
+                   -((T1)3 + 6 * half - 2 * tiny), std::ldexp((T1)1 + half + tiny, 40), std::ldexp((T1)1 + 3 * half - tiny, -40)});
+  }
   return out;
 }
 template <class QA, class QB, class = void>
@@ -109,6 +117,8 @@ void pair(const char* name) {
     };
     if constexpr (std::is_constructible_v<Q2, const Q1&>) {
       check("converting-construction", Q2(src));
+      // from a temporary as well (an overload taking an rvalue of the other precision must do the same)
+      check("converting-construction-from-temporary", Q2(Q1(src)));
       vf::setadd("converting_members", std::string(name) + "|ctor");
     }
     if constexpr (Assignable<Q2, Q1>::value) {
@@ -120,6 +130,15 @@ void pair(const char* name) {
       check("converting-assignment", dst);
       dst = src;
       check("converting-assignment-twice", dst);
+      {
+        Q2 dst3 = make2(junk);
+        dst3 = Q1(src);
+        check("converting-assignment-from-temporary", dst3);
+        Q1 movable = src;
+        Q2 dst4 = make2(junk);
+        dst4 = std::move(movable);
+        check("converting-assignment-from-moved-object", dst4);
+      }
       // ... and over a target that already compares equal to the converted source but is not the same numbers: every zero
       // with the opposite sign (an assignment that skips the store when `target == converted` keeps the old zeros)
       {
